@@ -860,21 +860,24 @@ class citetext(Base.Command):
 
 class defcitealias(Base.Command):
     args = 'key:str text'
-    aliases = {}
     def invoke(self, tex):
         res = Base.Command.invoke(self, tex)
-        defcitealias.aliases[self.attributes['key']] = self.attributes['text']
+        # The aliases belong to the document, not to this class
+        aliases = self.ownerDocument.userdata.setdefault('natbib-aliases', {})
+        aliases[self.attributes['key']] = self.attributes['text']
         return res
 
 class citetalias(citet):
     args = 'bibkeys:list:str'
     def citation(self):
-        return citet.citation(self, text=defcitealias.aliases.get(self.attributes['bibkeys'][0],''))
+        aliases = self.ownerDocument.userdata.get('natbib-aliases', {})
+        return citet.citation(self, text=aliases.get(self.attributes['bibkeys'][0],''))
 
 class citepalias(citep):
     args = 'bibkeys:list:str'
     def citation(self):
-        return citep.citation(self, text=defcitealias.aliases.get(self.attributes['bibkeys'][0],''))
+        aliases = self.ownerDocument.userdata.get('natbib-aliases', {})
+        return citep.citation(self, text=aliases.get(self.attributes['bibkeys'][0],''))
 
 class shortcites(Base.Command):
     args = 'bibkeys:list:str'
